@@ -279,7 +279,7 @@ class Ctx:
     fam = ':'.join(key.split(':')[:2])
     self._fam = getattr(self, '_fam', {})
     self._fam[fam] = self._fam.get(fam, 0) + 1
-    if self._fam[fam] > 5:
+    if self._fam[fam] > 5 and os.environ.get('VERIF_NOCAP') != '1':
       self.extra['suppressed_further_violations_' + fam] = self._fam[fam] - 5
       return
     h = hashlib.sha1(key.encode()).hexdigest()[:10]
